@@ -23,9 +23,10 @@ fn nrows(r: &mut Rng, i: usize) -> usize {
     }
 }
 
-/// A nullable column whose NULL tail inside one partition is at least `batch_size` long makes the
-/// streaming of its null map panic (finding Q4). Outside the slice that targets it, give the last
-/// row of every partition a value in the randomly-nullable columns.
+/// (unused since fix 4a8ac11: a nullable column whose NULL tail inside one partition was at least
+/// `batch_size` long made the streaming of its null map panic, finding Q4; the generators used to give
+/// the last row of every partition a value)
+#[allow(dead_code)]
 fn fix_null_tails(t: &mut Table, layout: &Layout, cols: &[usize]) {
     let parts = layout.partitions();
     for &c in cols {
@@ -65,7 +66,6 @@ pub fn gen_c03(r: &mut Rng, tier: &str) -> Vec<Case> {
         let n = nrows(r, ti);
         let mut table = standard_table(r, n);
         let layout = gen_layout(r, n, 4, false);
-        fix_null_tails(&mut table, &layout, &[B, G, U]);
         for qi in 0..20 {
             let nonnull = [A, F, S];
             let nullable = [A, B, F, G, S, U];
@@ -137,7 +137,6 @@ pub fn gen_c05(r: &mut Rng, tier: &str) -> Vec<Case> {
         let n = nrows(r, ti);
         let mut table = standard_table(r, n);
         let layout = gen_layout(r, n, 4, false);
-        fix_null_tails(&mut table, &layout, &[B, G, U]);
         let parts = layout.partitions();
         for qi in 0..20 {
             let mut q = Query::select(vec![Sel::Plain(Expr::Col(ID))]);
@@ -205,20 +204,38 @@ pub fn gen_c05(r: &mut Rng, tier: &str) -> Vec<Case> {
                     q.offset = r.below(cnt + 1);
                     q.explicit_offset = true;
                 }
-                _ => match r.below(8) {
+                _ => match r.below(12) {
                     0 => {}
                     1..=4 => q.limit = Some(limit_near(r, n, &parts)),
-                    _ => {
+                    5..=7 => {
                         q.limit = Some(limit_near(r, n, &parts));
                         q.offset = r.below(cnt.max(1)); // strictly inside the result
+                    }
+                    8 => q.limit = Some(0),
+                    9 => {
+                        // OFFSET at / beyond the number of result rows
+                        q.limit = Some(limit_near(r, n, &parts));
+                        q.offset = cnt + r.below(3);
+                        q.explicit_offset = true;
+                    }
+                    10 => {
+                        // OFFSET without LIMIT
+                        q.offset = r.below(cnt + 2);
+                        q.explicit_offset = true;
+                    }
+                    _ => {
+                        q.limit = Some(limit_near(r, n, &parts));
+                        q.offset = r.below(cnt + 2);
                     }
                 },
             }
             if qi == 13 || qi == 14 {
-                // keep nullable keys out of the top-n path (that is slice 15)
+                // keep nullable keys out of the top-n path (that is slice 15): a single nullable key
+                // gets no LIMIT, and no OFFSET either (a wrapped / saturated limit would select top-n)
                 if q.order.len() == 1 {
                     q.limit = None;
                     q.offset = 0;
+                    q.explicit_offset = false;
                 }
             }
             cases.push(Case { class: format!("{}:{}", cls, layout.shape()), input: case_sx(&table, &layout, &[q]) });
@@ -296,7 +313,6 @@ pub fn gen_c04(r: &mut Rng, tier: &str) -> Vec<Case> {
         };
         let mut table = group_table(r, n, card);
         let layout = gen_layout(r, n, 4, false);
-        fix_null_tails(&mut table, &layout, &[B, G, U, MN, FN]);
         for qi in 0..20 {
             let qi = if qi >= 13 && (ti + qi) % 2 == 1 { 3 + qi % 8 } else { qi };
             let (keys, measures, cls): (Vec<usize>, Vec<usize>, &str) = match qi {
@@ -363,8 +379,6 @@ pub fn gen_c02(r: &mut Rng, tier: &str) -> Vec<Case> {
         if ti % 3 == 0 {
             l2 = Layout::single(n); // one buffer, default options
         }
-        fix_null_tails(&mut table, &l1, &[B, G, U, MN, FN]);
-        fix_null_tails(&mut table, &l2, &[B, G, U, MN, FN]);
         let mut qs = vec![];
         // 1. filter / select over non-null columns, nullable column projected
         let cols = [A, F, S, M];
